@@ -14,6 +14,8 @@ import (
 	"os"
 	"os/exec"
 	"path/filepath"
+	"runtime/debug"
+	"strconv"
 	"strings"
 	"sync"
 	"testing"
@@ -56,6 +58,8 @@ func TestVerifC35ServerChild(t *testing.T) {
 	if portFile == "" {
 		t.Skip("server child: started by TestVerifC35Server only")
 	}
+	// a statement is at most a few KiB here; the default limit of 1 GiB would only make a runaway recursion slow to end
+	debug.SetMaxStack(256 << 20)
 	cfg := config.Config{}
 	cfg.Server.ServerVersion = "15.0"
 	cfg.Server.ClientEncoding = "UTF8"
@@ -294,19 +298,126 @@ func c35ParsePanics(q string) (msg string) {
 	return ""
 }
 
-// c35DownClass classifies a server death by what the same text does to Parse in this process.
-func c35DownClass(q string) string {
+// TestVerifC35ClassifyChild parses the texts of a file (one hex string per line)
+// in a process of its own, because the text that killed the server may kill any
+// process that parses it. Per text it logs the index first and then "ok" or the
+// recovered panic.
+func TestVerifC35ClassifyChild(t *testing.T) {
+	in := os.Getenv("VERIF_C35S_CLASSIFY")
+	if in == "" {
+		t.Skip("classification child: started by TestVerifC35Server only")
+	}
+	debug.SetMaxStack(256 << 20)
+	raw, err := os.ReadFile(in)
+	if err != nil {
+		t.Fatal(err)
+	}
+	out, err := os.OpenFile(in+".out", os.O_CREATE|os.O_WRONLY|os.O_APPEND, 0o644)
+	if err != nil {
+		t.Fatal(err)
+	}
+	defer out.Close()
+	for i, line := range strings.Fields(string(raw)) {
+		text, err := hex.DecodeString(strings.TrimPrefix(line, "x"))
+		if err != nil {
+			t.Fatal(err)
+		}
+		fmt.Fprintf(out, "start %d\n", i)
+		fmt.Fprintf(out, "done %d %s\n", i, strconv.Quote(c35ParsePanics(string(text))))
+	}
+}
+
+var c35ClassifyRuns int
+
+// c35ParseOutcomes tells, per text, what Parse does with it in a fresh process:
+// "" = returns, "panic:<msg>", or "death:<kind>" when the process does not survive it.
+func c35ParseOutcomes(dir string, texts []string) []string {
+	c35ClassifyRuns++
+	res := make([]string, len(texts))
+	for from := 0; from < len(texts); {
+		in := filepath.Join(dir, fmt.Sprintf("classify-%d-%d", c35ClassifyRuns, from))
+		var sb strings.Builder
+		for _, tx := range texts[from:] {
+			fmt.Fprintf(&sb, "x%x\n", tx)
+		}
+		if err := os.WriteFile(in, []byte(sb.String()), 0o644); err != nil {
+			for i := from; i < len(texts); i++ {
+				res[i] = "unknown:" + err.Error()
+			}
+			return res
+		}
+		cmd := exec.Command(os.Args[0], "-test.run=^TestVerifC35ClassifyChild$", "-test.timeout=10m")
+		cmd.Env = append(os.Environ(), "VERIF_C35S_CLASSIFY="+in)
+		outb, runErr := cmd.CombinedOutput()
+		started, finished := -1, -1
+		lines, _ := os.ReadFile(in + ".out")
+		for _, l := range strings.Split(string(lines), "\n") {
+			f := strings.SplitN(l, " ", 3)
+			if len(f) < 2 {
+				continue
+			}
+			k, _ := strconv.Atoi(f[1])
+			switch f[0] {
+			case "start":
+				started = k
+			case "done":
+				finished = k
+				if len(f) == 3 {
+					if msg, err := strconv.Unquote(f[2]); err == nil && msg != "" {
+						res[from+k] = "panic:" + msg
+					}
+				}
+			}
+		}
+		if runErr == nil && finished == len(texts)-from-1 {
+			return res
+		}
+		if started <= finished {
+			for i := from + finished + 1; i < len(texts); i++ {
+				res[i] = "unknown:classification child failed outside a text: " + fmt.Sprint(runErr)
+			}
+			return res
+		}
+		all := string(outb)
+		kind := "exit"
+		switch {
+		case strings.Contains(all, "stack overflow") || strings.Contains(all, "goroutine stack exceeds"):
+			kind = "stack_overflow"
+		case strings.Contains(all, "out of memory") || strings.Contains(all, "cannot allocate memory"):
+			kind = "out_of_memory"
+		case strings.Contains(all, "fatal error:"):
+			kind = "fatal_error"
+		}
+		res[from+started] = "death:" + kind
+		from += started + 1
+	}
+	return res
+}
+
+// c35DownClass classifies a server death by what the same text does to Parse in a process of its own.
+func c35DownClass(dir, q string) (string, string) {
 	text := q
 	if i := strings.IndexByte(text, 0); i >= 0 {
 		text = text[:i] // the wire format ends the query at the first NUL
 	}
-	if c35ParsePanics(text) == "" && c35ParsePanics(strings.TrimSpace(text)) == "" {
-		return "server_down_not_a_parser_panic"
+	st := c35Stable(text)
+	o := c35ParseOutcomes(dir, []string{text, strings.TrimSpace(text), st})
+	alone := o[0]
+	if alone == "" {
+		alone = o[1]
 	}
-	if st := c35Stable(text); st != text && c35ParsePanics(st) == "" {
-		return "server_down_parse_panic_lowercase_length_shift"
+	for _, x := range o[:2] {
+		if strings.HasPrefix(x, "death:") {
+			return "server_down_parse_process_death_" + strings.TrimPrefix(x, "death:"), x
+		}
 	}
-	return "server_down_parse_panic_other"
+	if o[0] == "" && o[1] == "" {
+		return "server_down_not_a_parser_panic", alone
+	}
+	if st != text && o[2] == "" {
+		return "server_down_parse_panic_lowercase_length_shift", alone
+	}
+	return "server_down_parse_panic_other", alone
 }
 
 func TestVerifC35Server(t *testing.T) {
@@ -346,10 +457,26 @@ func TestVerifC35Server(t *testing.T) {
 			}
 		}
 	}
-	for ci := 0; ci < n; ci++ {
+	ss := gen.Spaces()
+	total := n
+	if replayTransport == "" {
+		total = 2 * n // as many white-space statements: PRNG indices above those of the older cases
+	}
+	for ci := 0; ci < total; ci++ {
 		rng := r.Rand(ci)
 		var text, kind string
 		switch {
+		case ci >= n:
+			// every statement kind in turn, separators from the exotic part of unicode.IsSpace (every third: and near-space runes)
+			k := ci - n
+			st := gen.StatementKinds[k%len(gen.StatementKinds)]
+			sp := gen.GenKind(rng, st).WithSpaces(rng, ss, k%3 == 2)
+			text, kind = sp.Text, "uspace"
+			r.Seen("uspace_statement_kinds", st)
+			r.Seen("uspace_modes", sp.Mode)
+			for _, kw := range sp.AfterKw {
+				r.Seen("uspace_after_keyword", kw)
+			}
 		case ci%8 == 7:
 			text, kind = gen.Gen(rng).String(), "valid"
 		case ci%8 == 6:
@@ -386,11 +513,13 @@ func TestVerifC35Server(t *testing.T) {
 			if child.dead(60 * time.Second) {
 				if child.lostText != "" {
 					// the process was already going down when the previous case looked at it
-					r.Violation(c35DownClass(child.lostText), fmt.Sprintf("the SQL server process died after one client sent %q (%s); the next client found it gone: %v", c35sClip(child.lostText), child.lostTransport, err),
-						map[string]any{"query": child.lostText, "query_hex": fmt.Sprintf("%x", child.lostText), "transport": child.lostTransport, "server_stderr": c35sTail(child.out.String()), "in_process_parse_panic": c35ParsePanics(child.lostText)})
+					cls, alone := c35DownClass(dir, child.lostText)
+					r.Violation(cls, fmt.Sprintf("the SQL server process died after one client sent %q (%s); the next client found it gone: %v", c35sClip(child.lostText), child.lostTransport, err),
+						map[string]any{"query": child.lostText, "query_hex": fmt.Sprintf("%x", child.lostText), "transport": child.lostTransport, "server_stderr": c35sTail(child.out.String()), "parse_alone_in_fresh_process": alone})
 				} else {
 					// the bystander's own SET round trip is a client query as well
-					r.Violation(c35DownClass("SET verif = 1"), fmt.Sprintf("the SQL server process died on a client's first round trip (SET verif = 1): %v", err),
+					cls, _ := c35DownClass(dir, "SET verif = 1")
+					r.Violation(cls, fmt.Sprintf("the SQL server process died on a client's first round trip (SET verif = 1): %v", err),
 						map[string]any{"query": "SET verif = 1", "transport": "simple", "server_stderr": c35sTail(child.out.String())})
 				}
 				r.Count("server_process_deaths", 1)
@@ -444,9 +573,9 @@ func TestVerifC35Server(t *testing.T) {
 		if errOld != nil || errNew != nil {
 			if child.dead(60 * time.Second) {
 				out := child.out.String()
-				cls := c35DownClass(text)
+				cls, alone := c35DownClass(dir, text)
 				r.Violation(cls, fmt.Sprintf("the SQL server process died after one client sent %q (%s); bystander: %v / new connection: %v", c35sClip(text), transport, errOld, errNew),
-					map[string]any{"query": text, "query_hex": fmt.Sprintf("%x", text), "transport": transport, "server_stderr": c35sTail(out), "in_process_parse_panic": c35ParsePanics(text)})
+					map[string]any{"query": text, "query_hex": fmt.Sprintf("%x", text), "transport": transport, "server_stderr": c35sTail(out), "parse_alone_in_fresh_process": alone})
 				r.Count("server_process_deaths", 1)
 				child = nil
 			} else {
@@ -465,6 +594,8 @@ func TestVerifC35Server(t *testing.T) {
 	r.Count("server_children_started", int64(starts))
 	if replayTransport == "" {
 		r.Floor("queries_hostile", int64(n/2))
+		r.Floor("queries_uspace", int64(n))
+		r.Floor("uspace_statement_kinds", int64(len(gen.StatementKinds)))
 	}
 }
 
